@@ -22,7 +22,8 @@
     functions [enc]/[dec]; the explicit empty-password test of DecryptWithCustomScrypt is modelled.
     Which scrypt parameters each call site passes is read from the source (Gen/WalletConsts.v).
 
-    Not modelled: save() failing (file-system errors and the roll-back paths), identities, Lock,
+    save() failing is a flag on the step ([step_sf]); the roll-back code is abstracted to the identity.
+    Not modelled: identities, Lock,
     UnLockAccount/LockAccount/GetUnlockAccount (time dependent, not persisted), the legacy
     aes-256-ctr format, key generation failing, labels that are not valid UTF-8 (encoding/json
     replaces such bytes), the RWMutex (every method holds it for its whole body).
@@ -133,7 +134,8 @@ Section Wallet.
 
   Inductive res :=
   | ROk | RKey (k : key) | RNil
-  | EEmptyPwd | ESigScheme | EDupLabel | EDupAddr | ENotFound | EDeleteDefault | EDecrypt | ESchemeName | ENoDefault.
+  | EEmptyPwd | ESigScheme | EDupLabel | EDupAddr | ENotFound | EDeleteDefault | EDecrypt | ESchemeName | ENoDefault
+  | ESave.   (* save() failed: the operation rolled back *)
 
   (** keypair.DecryptWithCustomScrypt: `len(pwd) == 0` is refused before anything else *)
   Definition decrypt (prm : scrypt) (x : acct) (pwd : string) : option key :=
@@ -341,6 +343,30 @@ Section Wallet.
     | OReload => (reload w, ROk)
     end.
 
+  (** *** save() failing (the wallet file cannot be written).
+      Every mutating method calls save() after it has changed the client and, when save() returns an
+      error, puts everything back (DelAccount of the added entry, the copied account list, the old
+      flag / label / key / scheme) and returns the error. [reaches_save w o]: does operation [o] in
+      state [w] get as far as save()?  That is: it would succeed, and it is not one of the
+      shortcuts that return nil without saving (SetDefaultAccount of the current default,
+      SetLabel with the label the account has, ChangePassword with old = new). Re-opening the
+      file does not save. *)
+  Definition is_success (r : res) : bool := match r with ROk | RKey _ => true | _ => false end.
+  Definition reaches_save (w : wallet) (o : op) : bool :=
+    is_success (snd (step w o)) &&
+    match o with
+    | OSetDefault addr =>
+        negb (match get_default_meta w with Some d => String.eqb (a_addr d) addr | None => false end)
+    | OSetLabel addr label =>
+        negb (match get_meta_by_address w addr with Some x => String.eqb (a_label x) label | None => false end)
+    | OChangePwd _ old new => negb (String.eqb old new)
+    | OReload => false
+    | _ => true
+    end.
+  (** one step with the file writable ([save_fails = false]) or not *)
+  Definition step_sf (save_fails : bool) (w : wallet) (o : op) : wallet * res :=
+    if save_fails && reaches_save w o then (w, ESave) else step w o.
+
   (** *** specification state: for each address, the key and the CURRENT password, as a user of the
       API knows them: set by a successful create/import, replaced by a successful password
       change (ChangePassword with old = new returns nil without looking at anything), removed by a
@@ -381,6 +407,21 @@ Section Wallet.
     match ops with
     | [] => True
     | o :: r => op_caller_ok w o /\ caller_ok (fst (step w o)) r
+    end.
+
+  (** histories in which each operation is issued with the file writable or not *)
+  Fixpoint run_sf (w : wallet) (g : ghost) (ops : list (bool * op)) : wallet * ghost * list res :=
+    match ops with
+    | [] => (w, g, [])
+    | (b, o) :: r =>
+      let (w', e) := step_sf b w o in
+      let '(w'', g'', es) := run_sf w' (gstep g o e) r in
+      (w'', g'', e :: es)
+    end.
+  Fixpoint caller_ok_sf (w : wallet) (ops : list (bool * op)) : Prop :=
+    match ops with
+    | [] => True
+    | (b, o) :: r => op_caller_ok w o /\ caller_ok_sf (fst (step_sf b w o)) r
     end.
 
   (** *** several wallets open in one process.
@@ -475,6 +516,7 @@ Arguments EDeleteDefault {key}.
 Arguments EDecrypt {key}.
 Arguments ESchemeName {key}.
 Arguments ENoDefault {key}.
+Arguments ESave {key}.
 
 (** ** The ideal cipher: the hypothesis on scrypt + AES-256-GCM under which the property is proved.
     Decryption under exactly the context and password of the encryption returns the key; under
